@@ -20,26 +20,17 @@ where
     Ok(T::deserialize(de).unwrap_or_default())
 }
 
-#[derive(Debug, Default)]
+/// An element of a list which is allowed to contain values we do not know about.
+///
+/// Being untagged, the element is first read in full from the input and only then interpreted
+/// as a `T`. This way only a well-formed element of an unknown shape ends up as `None`, whereas
+/// errors of the underlying reader (such as the input ending in the middle of the list) are
+/// still reported instead of being mistaken for an unknown value.
+#[derive(Debug, Deserialize)]
+#[serde(untagged)]
 enum PossiblyUnknown<T> {
     Some(T),
-    #[default]
-    None,
-}
-
-impl<'de, T> Deserialize<'de> for PossiblyUnknown<T>
-where
-    T: Deserialize<'de>,
-{
-    fn deserialize<D>(de: D) -> Result<Self, D::Error>
-    where
-        D: Deserializer<'de>,
-    {
-        Ok(match T::deserialize(de) {
-            Ok(val) => Self::Some(val),
-            Err(_) => Self::None,
-        })
-    }
+    None(serde::de::IgnoredAny),
 }
 
 pub(crate) fn ignore_unknown_opt_vec<'de, D, T>(de: D) -> Result<Option<Vec<T>>, D::Error>
